@@ -31,6 +31,7 @@ func init() {
 			{"C05-R8", "only an answered first request creates the per-type record", c05r8},
 			{"C05-R9", "the forced EDS push after a delta CDS answer is unconditional (shared with C03)", c05r9},
 			{"C05-R10", "ready always includes caches synced", c05r10},
+			{"C05-R11", "the context a connection starts from is read while it is being registered", c05r11},
 		},
 	})
 }
@@ -541,5 +542,70 @@ func c05r10(c *Ctx) {
 			"IsServerReady can return a value other than false on a path that never reads serverReady (set by CachesSynced): connections are then admitted before the registries and the config store are synced, and a proxy that reconnects to a just-restarted instance is answered from an empty snapshot - for a delta client every cluster it retained is removed")
 	}
 	c.Check("IsServerReady has a positive answer", fn.Pos(), n >= 1, "no return other than the constant false")
+	c.Floor(2)
+}
+
+// C05-R11: the context a connection starts from is read while it is being registered. StartPush fans a committed push
+// out over the registered connections; a connection becomes visible to it in addCon, under adsClientsMutex. For no push to
+// fall between "the context the proxy is initialised from" and "the first push that is enqueued for it", that context is
+// read under the same lock: addCon stores the result of globalPushContext() into the proxy's LastPushContext between
+// Lock and Unlock of adsClientsMutex, in the critical section that inserts the connection into adsClients. (Reading it
+// before - e.g. ahead of authorize - loses a push that is committed and fanned out in between: the proxy is answered from
+// the older context and nothing is queued for it.)
+func c05r11(c *Ctx) {
+	p := c.P
+	fn := p.Func(pkgXds, "DiscoveryServer", "addCon")
+	lpc := p.Field(pkgModel, "Proxy", "LastPushContext")
+	gpc := p.FuncObj(pkgXds, "DiscoveryServer", "globalPushContext")
+	mu := p.Field(pkgXds, "DiscoveryServer", "adsClientsMutex")
+	clients := p.Field(pkgXds, "DiscoveryServer", "adsClients")
+	var lock, insert, store ssa.Instruction
+	deferredUnlock := false
+	var unlock ssa.Instruction
+	eachInstr(fn, func(ins ssa.Instruction) {
+		switch x := ins.(type) {
+		case *ssa.Call:
+			if o := calleeObj(x); o != nil && len(x.Call.Args) > 0 {
+				if fa, ok := x.Call.Args[0].(*ssa.FieldAddr); ok && fieldVar(fa.X.Type(), fa.Field) == mu {
+					if o.Name() == "Lock" {
+						lock = ins
+					}
+					if o.Name() == "Unlock" {
+						unlock = ins
+					}
+				}
+			}
+		case *ssa.Defer:
+			if o := calleeObj(x); o != nil && o.Name() == "Unlock" && len(x.Call.Args) > 0 {
+				if fa, ok := x.Call.Args[0].(*ssa.FieldAddr); ok && fieldVar(fa.X.Type(), fa.Field) == mu {
+					deferredUnlock = true
+				}
+			}
+		case *ssa.MapUpdate:
+			if fieldOfLoad(x.Map) == clients {
+				insert = ins
+			}
+		case *ssa.Store:
+			if fa, ok := x.Addr.(*ssa.FieldAddr); ok && fieldVar(fa.X.Type(), fa.Field) == lpc {
+				if call, ok := x.Val.(*ssa.Call); ok && isCallTo(call, gpc) {
+					store = ins
+				}
+			}
+		}
+	})
+	c.Check("addCon registers the connection under adsClientsMutex", fn.Pos(), lock != nil && insert != nil && (deferredUnlock || unlock != nil), "Lock / insert into adsClients / Unlock not found in addCon")
+	okStore := false
+	if store != nil && lock != nil {
+		after := func(a, b ssa.Instruction) bool {
+			return a.Block() == b.Block() && instrIndex(a) < instrIndex(b) || a.Block() != b.Block() && a.Block().Dominates(b.Block())
+		}
+		okStore = after(lock, store) && (deferredUnlock || unlock != nil && after(store, unlock))
+	}
+	pos := fn.Pos()
+	if store != nil {
+		pos = store.Pos()
+	}
+	c.Check("the push context a connection starts from is read under the lock that registers it", pos, okStore,
+		"addCon does not store globalPushContext() into the proxy's LastPushContext inside the adsClientsMutex critical section that makes the connection visible to StartPush: a push that is committed and fanned out between an earlier read of the context and the registration is neither part of the context the proxy is initialised from nor enqueued for it - the (re)connecting proxy is answered from the older snapshot and stays stale until the next push")
 	c.Floor(2)
 }
